@@ -202,7 +202,7 @@ def _dom_or_pdom(g, a, b, dom, pdom):
 
 
 @rule('SA-PAIR.removal_cache')
-@props('C02', 'C13')
+@props('C01', 'C02', 'C03', 'C06', 'C07', 'C09', 'C13')
 def removal_cache(ctx):
     """removal primitives are accompanied, on every path, by cache_clear() of the lru_cache finders"""
     obs = []
